@@ -159,15 +159,174 @@ func c20StatementSites(r *Rng, n int) []c20Site {
 	return all
 }
 
+// ---------------------------------------------------------------------------------------------
+// generated near-misses: a random operand expression and a copy that differs in exactly one leaf
+// (variable, member name, method name, key, argument, operator, literal). Two such expressions are
+// not "the same expression", so none of the identity-based checks (14, 19, 20) may fire on them.
+
+type c20Part struct {
+	Text string
+	Kind string // "" = fixed; otherwise the leaf kind that may be mutated
+}
+
+func c20GenChain(r *Rng, vars []string, depth int, assignable bool) []c20Part {
+	ps := []c20Part{{r.Pick(vars), "variable"}}
+	n := r.Range(0, 3)
+	if assignable && n == 0 && r.Bool() {
+		n = 1
+	}
+	for i := 0; i < n; i++ {
+		last := i == n-1
+		k := r.Intn(5)
+		if assignable && last && k >= 3 {
+			k = r.Intn(3) // an assignment target cannot end in a call
+		}
+		switch k {
+		case 0:
+			ps = append(ps, c20Part{".", ""}, c20Part{r.Pick([]string{"fld", "other", "x", "pos", "name"}), "member-name"})
+		case 1:
+			ps = append(ps, c20Part{"[", ""})
+			switch r.Intn(3) {
+			case 0:
+				ps = append(ps, c20Part{fmt.Sprint(r.Range(1, 9)), "number-key"})
+			case 1:
+				ps = append(ps, c20Part{"\"" + r.Pick([]string{"k", "key", "id"}) + "\"", "string-key"})
+			default:
+				if depth > 0 {
+					ps = append(ps, c20GenChain(r, vars, depth-1, false)...)
+				} else {
+					ps = append(ps, c20Part{r.Pick(vars), "variable"})
+				}
+			}
+			ps = append(ps, c20Part{"]", ""})
+		case 2:
+			ps = append(ps, c20Part{".", ""}, c20Part{r.Pick([]string{"sub", "inner"}), "member-name"}, c20Part{".", ""}, c20Part{r.Pick([]string{"fld", "other"}), "member-name"})
+		case 3, 4:
+			if k == 3 {
+				ps = append(ps, c20Part{":", ""}, c20Part{r.Pick([]string{"get", "put", "isA", "isB", "size"}), "method-name"})
+			} else {
+				ps = append(ps, c20Part{".", ""}, c20Part{r.Pick([]string{"fn", "call"}), "member-name"})
+			}
+			ps = append(ps, c20Part{"(", ""})
+			na := r.Range(0, 2)
+			for j := 0; j < na; j++ {
+				if j > 0 {
+					ps = append(ps, c20Part{", ", ""})
+				}
+				switch r.Intn(3) {
+				case 0:
+					ps = append(ps, c20Part{fmt.Sprint(r.Range(1, 99)), "number-argument"})
+				case 1:
+					ps = append(ps, c20Part{"\"" + r.Pick([]string{"s", "t", "uv"}) + "\"", "string-argument"})
+				default:
+					ps = append(ps, c20Part{r.Pick(vars), "variable"})
+				}
+			}
+			ps = append(ps, c20Part{")", ""})
+		}
+	}
+	return ps
+}
+
+func c20GenTerm(r *Rng, vars []string, depth int) []c20Part {
+	switch r.Intn(6) {
+	case 0:
+		return append([]c20Part{{r.Pick([]string{"not ", "#", "-"}), "unary-operator"}}, c20GenChain(r, vars, depth, false)...)
+	case 1:
+		ps := c20GenChain(r, vars, depth, false)
+		ps = append(ps, c20Part{" " + r.Pick([]string{"+", "-", "*", "..", "%"}) + " ", "binary-operator"})
+		return append(ps, c20GenChain(r, vars, depth, false)...)
+	case 2:
+		ps := c20GenChain(r, vars, depth, false)
+		ps = append(ps, c20Part{" + ", ""}, c20Part{fmt.Sprint(r.Range(1, 99)), "number-operand"})
+		return ps
+	}
+	return c20GenChain(r, vars, depth, false)
+}
+
+var c20Alternatives = map[string][]string{
+	"member-name": {"fld", "other", "x", "pos", "name", "sub", "inner", "fn", "call"}, "method-name": {"get", "put", "isA", "isB", "size"},
+	"string-key": {"\"k\"", "\"key\"", "\"id\""}, "string-argument": {"\"s\"", "\"t\"", "\"uv\""},
+	"unary-operator": {"not ", "#", "-"}, "binary-operator": {" + ", " - ", " * ", " .. ", " % "},
+}
+
+// c20Mutate returns a copy of ps that differs in exactly one mutable leaf, and the kind of that leaf.
+func c20Mutate(r *Rng, ps []c20Part, vars []string) ([]c20Part, string) {
+	var idx []int
+	for i, p := range ps {
+		if p.Kind != "" {
+			idx = append(idx, i)
+		}
+	}
+	i := idx[r.Intn(len(idx))]
+	out := append([]c20Part(nil), ps...)
+	p := out[i]
+	alts := c20Alternatives[p.Kind]
+	switch p.Kind {
+	case "variable":
+		alts = vars
+	case "number-key", "number-argument", "number-operand":
+		alts = []string{"1", "2", "3", "17", "42", "100"}
+	}
+	for {
+		t := r.Pick(alts)
+		if t != p.Text {
+			out[i].Text = t
+			return out, p.Kind
+		}
+	}
+}
+
+func c20Join(ps []c20Part) string {
+	var sb strings.Builder
+	for _, p := range ps {
+		sb.WriteString(p.Text)
+	}
+	return sb.String()
+}
+
+// c20GeneratedSite plants one generated near-miss.
+func c20GeneratedSite(r *Rng, n int, a, b, cc string, ctxs []func(e string, n int) string) c20Site {
+	vars := []string{a, b, cc}
+	none := map[int]int{}
+	switch r.Intn(4) {
+	case 0: // 14: comparison / logical operator between two different operands
+		t := c20GenTerm(r, vars, 1)
+		t2, kind := c20Mutate(r, t, vars)
+		op := r.Pick([]string{"==", "~=", "<", "<=", ">", ">=", "and", "or"})
+		e := "(" + c20Join(t) + ") " + op + " (" + c20Join(t2) + ")"
+		if r.Bool() {
+			e = c20Join(t) + " " + op + " " + c20Join(t2)
+		}
+		return c20Site{Text: ctxs[r.Intn(len(ctxs))](e, n), Expect: none, Label: "generated-near-same-operands|differs-in-" + kind}
+	case 1: // 19: if / elseif with different conditions
+		t := c20GenTerm(r, vars, 1)
+		t2, kind := c20Mutate(r, t, vars)
+		if r.Bool() {
+			return c20Site{Text: fmt.Sprintf("if %s then sink(1) elseif %s then sink(2) end", c20Join(t), c20Join(t2)), Expect: none, Label: "generated-near-dup-if|differs-in-" + kind}
+		}
+		return c20Site{Text: fmt.Sprintf("if %s then sink(1) elseif %s == nil then sink(2) elseif %s then sink(3) end", c20Join(t), cc, c20Join(t2)), Expect: none,
+			Label: "generated-near-dup-if-third|differs-in-" + kind}
+	case 2: // 20: assignment whose two sides differ
+		t := c20GenChain(r, vars, 1, true)
+		t2, kind := c20Mutate(r, t, vars)
+		return c20Site{Text: fmt.Sprintf("%s = %s", c20Join(t), c20Join(t2)), Expect: none, Label: "generated-near-self-assign|differs-in-" + kind}
+	default: // 20, pairwise
+		t := c20GenChain(r, vars, 1, true)
+		t2, kind := c20Mutate(r, t, vars)
+		return c20Site{Text: fmt.Sprintf("%s, %s.tmp = %s, %s.tmp2", c20Join(t), cc, c20Join(t2), cc), Expect: none, Label: "generated-near-self-assign-pairwise|differs-in-" + kind}
+	}
+}
+
 func runC20(c *Ctx) {
-	nFiles := c.N(1500, 30000)
+	nFiles := c.N(6000, 60000)
 	root := NewRng(c.Seed).Fork(20)
 	pats := c20ExprPatterns()
 	ctxs := c20Contexts()
 	parallel(nFiles/10+1, 14, func(bi int) {
 		files := map[string]string{}
-		sites := map[string][]c20Site{}  // rel -> site per planted line
-		lines := map[string][]int{}      // rel -> line number of each site
+		sites := map[string][]c20Site{} // rel -> site per planted line
+		lines := map[string][]int{}     // rel -> line number of each site
 		for k := 0; k < 10; k++ {
 			fi := bi*10 + k
 			if fi >= nFiles {
@@ -202,7 +361,9 @@ func runC20(c *Ctx) {
 					depthOpen++
 				}
 				var st c20Site
-				if r.Bool() {
+				if r.Chance(1, 3) {
+					st = c20GeneratedSite(r, n, a, b, cc, ctxs)
+				} else if r.Bool() {
 					p := pats[r.Intn(len(pats))]
 					ctx := ctxs[r.Intn(len(ctxs))]
 					st = c20Site{Text: ctx(p.Exp(a, b), n), Expect: p.Exp2, Label: p.Label}
@@ -298,7 +459,8 @@ func runC20(c *Ctx) {
 	sort.Strings(labels)
 	c.Set("site_classes", labels)
 	c.Finish("valid programs in which every planted site sits on its own line at a random nesting depth (blocks, loops, closures) and, for expression patterns, in a random "+
-		"expression context (initialiser, call argument, table value, condition, closure body); 80 site classes cover instances, near-misses and don't-care forms of checks "+
-		"5,7,8,13,14,15,16,19,20,21; per site the number of diagnostics of each of the ten types touching that line must equal the expectation (MUST n / MUST-NOT). "+
+		"expression context (initialiser, call argument, table value, condition, closure body); 80 fixed site classes cover instances, near-misses and don't-care forms of checks "+
+		"5,7,8,13,14,15,16,19,20,21, and generated near-misses pair a random operand expression (member / index / call / method chains, operators) with a copy that differs in "+
+		"exactly one leaf (variable, member, method, key, argument, operator, literal) under a comparison, in if/elseif conditions and on the two sides of an assignment; per site the number of diagnostics of each of the ten types touching that line must equal the expectation (MUST n / MUST-NOT). "+
 		"distinct_nontrivial = distinct (site class, site text) checked", 200)
 }
